@@ -37,6 +37,9 @@ class StepInterp(HelperCalls, NanInterp):
     """NaN-domain interpreter that also interprets calls of the step module's private functions and of
     the step class's own methods (helpers are read as code, whatever their shape)."""
 
+    def snapshot(self) -> Any:
+        return {"order": dict(self.order_facts)}  # the order facts of THIS path (kept in Outcome.state)
+
 
 def step_interp(prog: Program, fn: FuncInfo, fields: Any) -> StepInterp:
     it = StepInterp(fields)
@@ -539,6 +542,7 @@ def check_read(run: Run, prog: Program) -> None:
                             isinstance(x.value, ast.Attribute) and u(x.value) == "self._metric_fetchers") \
                             and isinstance(x.value, (ast.Name, ast.Subscript)) and is_fetcher(x.value, n.id):
                         uses += 1
+                        run.analysed(m.qual)
                         par = fl._parent.get(id(x))
                         called = isinstance(par, ast.Call) and par.func is x
                         run.check(x.attr == "fetch_next" and called, "C13.READ", m.qual, f"fetcher.{x.attr}",
